@@ -238,6 +238,15 @@ func (c *Ctx) RunSkeletons(opt SkelOpts) {
 				}
 				dvs = append(dvs, more...)
 			}
+			if hasPrefix("G-DATA/name-final", opt.Rules) {
+				// once more, with AddVar marking earlier names as possibly renamed (see tmpl.DeriveProbe)
+				probe, err := tmpl.DeriveProbe(c.Prog, model)
+				if err != nil {
+					outs[i] = []skelOut{{env: envs[i], err: err}}
+					return
+				}
+				dvs = append(dvs, probe...)
+			}
 			if opt.NoExpand {
 				outs[i] = []skelOut{{env: envs[i], derived: dvs, skip: true}}
 				return
